@@ -175,6 +175,58 @@ def _h_multipart(shape):
     return fn
 
 
+def part_sizes(g, content, bytes_of):
+    """[(what, announced octets, octets BODY[part] returns, header+body octets of that part)] for the parts of a
+    message: part 1 of a non-multipart message, parts 1..k of a multipart one"""
+    import datetime
+    msg = g['Message'](7, datetime.datetime(2020, 1, 1), [], content=content)
+    loaded = g['BaseLoadedMessage'](msg, g['FetchRequirement'].CONTENT, msg._content)
+    bs = loaded.get_body_structure()
+    out = []
+    subs = getattr(bs, 'parts', None)
+    if subs is None:
+        subs, whole = [bs], [content]
+    else:
+        whole = list(content.body.nested)
+    for i, (sub, part) in enumerate(zip(subs, whole), 1):
+        size = getattr(sub, 'size', None)
+        if size is None:
+            continue
+        got = bytes_of(loaded.get_body([i]))
+        out.append(('part %d' % i, size, len(got), len(part)))
+    return out
+
+
+def _h_part_sizes(n):
+    """the octet count BODYSTRUCTURE announces for a part = the length of what BODY[part] returns"""
+    def fn(eng):
+        from pysymex import fresh_bytes, B, AND, Outcome
+        data = fresh_bytes(eng, 'b', n, 'bytes')
+        content = _g['MessageContent'].parse(data)
+        props = [B(size == got) for _, size, got, _ in part_sizes(_g, content, bytes_)]
+        return Outcome(AND(*props), witness=lambda m: {'data': data.eval(m).hex()})
+    return fn
+
+
+def _h_part_sizes_multipart(shape):
+    def fn(eng):
+        from pysymex import fresh_bytes, SymBytes, B, AND, Outcome
+        items = list(b'Content-Type: multipart/mixed; boundary=Q\r\n\r\n')
+        k = 0
+        for part in shape:
+            items += list(b'--Q\r\n')
+            for ln in part:
+                sb = fresh_bytes(eng, 'p%d_' % k, ln)
+                k += 1
+                items += sb.items + [13, 10]
+        items += list(b'--Q--\r\n')
+        data = SymBytes(items, 'bytes')
+        content = _g['MessageContent'].parse(data)
+        props = [B(size == got) for _, size, got, _ in part_sizes(_g, content, bytes_)]
+        return Outcome(AND(*props), witness=lambda m: {'data': data.eval(m).hex()})
+    return fn
+
+
 def _h_append_two(n1, n2):
     """APPEND two messages to the real dict mailbox (content cache keyed by
     a checksum, thread cache), then each message still returns its own bytes"""
@@ -227,6 +279,18 @@ def harnesses(tier):
     for sh in shapes:
         hs.append(Harness('multipart%s' % sh, _h_multipart(sh), {'parts': sh},
                           replay='multipart'))
+    # maildir: COPY / MOVE through the real maildir MailboxData with the Maildir object store stubbed (its
+    # get_message_metadata returns a message without content, as pymap's own method documents)
+    from checks import c04_maildir
+    if '_mg' not in _g:
+        _g['_mg'] = c04_maildir.bindings()
+    hs.append(Harness('maildir_copy_content', c04_maildir.harness(_g['_mg'], 1, 1, 30, content=True),
+                      {'ops': c04_maildir.OPS, 'oracle': 'the message in the destination holds the source content'},
+                      replay='mdcontent', task_budget=60))
+    for n in range(0, (5 if tier == 'quick' else 7) + 1):
+        hs.append(Harness('part_sizes[len=%d]' % n, _h_part_sizes(n), {'len': n}, replay='part_sizes'))
+    for sh in shapes[:2] if tier == 'quick' else shapes[:4]:
+        hs.append(Harness('part_sizes_multipart%s' % sh, _h_part_sizes_multipart(sh), {'parts': sh}, replay='part_sizes'))
     return hs
 
 
@@ -272,6 +336,22 @@ def replay(harness, w):
     from pymap.mime import MessageContent
     from pymap.mime._util import get_raw
     bad = []
+    if harness == 'mdcontent':
+        from checks import c04_maildir
+        bad = c04_maildir.replay(w, content=True)
+        return {'violates': bool(bad), 'detail': bad[:3], 'category': 'maildir copy content'}
+    if harness == 'part_sizes':
+        from pymap.message import BaseLoadedMessage
+        from pymap.parsing.specials.fetchattr import FetchRequirement
+        from pymap.backend.dict.mailbox import Message
+        g = {'Message': Message, 'BaseLoadedMessage': BaseLoadedMessage, 'FetchRequirement': FetchRequirement}
+        kinds = set()
+        for what, size, got, whole in part_sizes(g, MessageContent.parse(data), bytes):
+            if size != got:
+                bad.append('%s: BODYSTRUCTURE announces %d octets, BODY[part] returns %d' % (what, size, got))
+                kinds.add('counts-header' if size == whole else 'other')
+        return {'violates': bool(bad), 'detail': bad[:3], 'kind': 'counts-header' if kinds == {'counts-header'} else 'other',
+                'category': 'part size: ' + ','.join(sorted(kinds))}
     if harness.startswith('append_two'):
         from checks import _sim
         from pymap.backend.dict.mailbox import MailboxSet
@@ -311,4 +391,7 @@ def replay(harness, w):
 
 
 def classify(harness, w, res):
+    # only the recorded behaviour: the announced count is exactly header + body of that part
+    if harness == 'part_sizes' and res.get('kind') == 'counts-header':
+        return 'C03-bodystructure-counts-header'
     return None
